@@ -27,11 +27,13 @@ Definition dir_edge (S : Z) (vs : list pt) (r : Z * Z) : edge :=
   ((Z.to_nat (inner S vs r), img S vs (outer S vs r)), cell_pt S (vat vs (outer S vs r))).
 Definition edge_eqb (e e' : edge) : bool := natpair_eqb (fst e) (fst e') && pt_eqb (snd e) (snd e').
 
+(* nested [if]s, not [&&]: the nearest-vertex query is made only for the ridges at o' (matters for vm_compute, which is strict) *)
 Definition is_translate_t (S : Z) (vs : list pt) (i : Z) (o' : nat) (c : pt) (r' : Z * Z) : bool :=
-  let a' := if fst r' =? Z.of_nat o' then snd r' else fst r' in
-  finite r' && ((fst r' =? Z.of_nat o') || (snd r' =? Z.of_nat o')) &&
-  negb (in_unit S (vat vs a')) && (img S vs a' =? Z.to_nat i)%nat &&
-  pt_eqb (cell_pt S (vat vs a')) (pt_opp c).
+  if finite r' && ((fst r' =? Z.of_nat o') || (snd r' =? Z.of_nat o')) then
+    let a' := if fst r' =? Z.of_nat o' then snd r' else fst r' in
+    if in_unit S (vat vs a') then false
+    else if (img S vs a' =? Z.to_nat i)%nat then pt_eqb (cell_pt S (vat vs a')) (pt_opp c) else false
+  else false.
 
 Definition cross_ok_t (S : Z) (vs : list pt) (rv : list (Z * Z)) (r : Z * Z) : bool :=
   let i := inner S vs r in
